@@ -149,4 +149,119 @@ theorem anyOverlap_cons_mono (p : Path) (alts fs : List Path) (h : anyOverlap [p
     · exact Or.inl (Or.inl h)
     · exact Or.inr (Or.inl h)
 
+/-! ### names spelled with a trailing separator
+
+`getLogicalFileNames` keeps the RAW spelling of an output next to the cleaned
+one.  A raw spelling with a trailing separator (`…/outdir/`) is inert next to
+its cleaned form: whatever walked path matches it matches the cleaned form. -/
+
+/-- no doubled separator inside the path (what a walk of a directory yields) -/
+def NoDbl (p : Path) : Prop := ¬ ['/', '/'] <:+: p
+
+/-- the shape of the names an argument refers to: clean at the end, or a clean
+member of the list with one separator appended -/
+def FilesWF (fs : List Path) : Prop :=
+  ∀ f ∈ fs, NoTrailingSlash f ∨ ∃ g ∈ fs, NoTrailingSlash g ∧ ∃ k, 0 < k ∧ f = g ++ List.replicate k '/'
+
+theorem anyOverlap_single (n : Path) (fs : List Path) :
+    anyOverlap [n] fs = true ↔ ∃ f ∈ fs, n = f ∨ overlapDir n f = true := by
+  unfold anyOverlap
+  cases fs with
+  | nil => simp
+  | cons x r =>
+    simp only [List.isEmpty_cons, Bool.or_self, Bool.false_eq_true, if_false, List.any_cons, List.any_nil,
+      Bool.or_false]
+    constructor
+    · intro h
+      split at h
+      · rename_i hc
+        have : n ∈ x :: r := by simpa using hc
+        exact ⟨n, this, Or.inl rfl⟩
+      · rw [Bool.or_eq_true] at h
+        rcases h with h | h
+        · exact ⟨x, List.mem_cons_self, Or.inr h⟩
+        · rw [List.any_eq_true] at h
+          obtain ⟨f, hf, hm⟩ := h
+          exact ⟨f, List.mem_cons_of_mem _ hf, Or.inr hm⟩
+    · rintro ⟨f, hf, h | h⟩
+      · subst h
+        have hc : (x :: r).contains n = true := by simpa using hf
+        rw [if_pos hc]
+      · split
+        · rfl
+        · rcases List.mem_cons.mp hf with rfl | hf
+          · simp [h]
+          · rw [Bool.or_eq_true]
+            right
+            rw [List.any_eq_true]
+            exact ⟨f, hf, h⟩
+
+theorem replicate_succ_slash (j : Nat) : List.replicate (j + 1) '/' = List.replicate j '/' ++ ['/'] := by
+  rw [List.replicate_succ']
+
+/-- a walked path that matches a name with trailing separators matches the name without them -/
+theorem match_trailing {n g : Path} {k : Nat} (hn : NoTrailingSlash n) (hd : NoDbl n) (hg : NoTrailingSlash g)
+    (hk : 0 < k) (h : n = g ++ List.replicate k '/' ∨ overlapDir n (g ++ List.replicate k '/') = true) :
+    Related n g := by
+  obtain ⟨j, rfl⟩ : ∃ j, k = j + 1 := ⟨k - 1, by omega⟩
+  rcases h with h | h
+  · exfalso
+    rw [replicate_succ_slash, ← List.append_assoc] at h
+    exact hn _ h
+  · unfold overlapDir at h
+    split at h
+    · exfalso
+      obtain ⟨t, ht⟩ := List.isPrefixOf_iff_prefix.mp h
+      apply hd
+      refine ⟨g ++ List.replicate j '/', t, ?_⟩
+      rw [← ht, replicate_succ_slash]
+      simp
+    · split at h
+      · obtain ⟨t, ht⟩ := List.isPrefixOf_iff_prefix.mp h
+        have hp1 : (n ++ ['/']) <+: (g ++ List.replicate (j + 1) '/') := ⟨t, ht⟩
+        have hp2 : g <+: (g ++ List.replicate (j + 1) '/') := ⟨_, rfl⟩
+        rcases List.prefix_or_prefix_of_prefix hp1 hp2 with h1 | h1
+        · exact Or.inr (Or.inr h1)
+        · obtain ⟨u, hu⟩ := h1
+          by_cases hu0 : u = []
+          · subst hu0
+            exfalso
+            exact hg n (by simpa using hu)
+          · have e : g ++ u.dropLast ++ [u.getLast hu0] = n ++ ['/'] := by
+              rw [← hu, List.append_assoc, List.dropLast_concat_getLast hu0]
+            have hn' := (List.append_inj' e rfl).1
+            -- n = g ++ u.dropLast, and u.dropLast consists of separators only
+            by_cases hu1 : u.dropLast = []
+            · left; rw [← hn', hu1]; simp
+            · exfalso
+              have hpre : (u.dropLast ++ ['/']) <+: List.replicate (j + 1) '/' := by
+                have : (g ++ (u.dropLast ++ ['/'])) <+: (g ++ List.replicate (j + 1) '/') := by
+                  rw [← List.append_assoc, hn']; exact hp1
+                exact (List.prefix_append_right_inj g).mp this
+              have hlast : u.dropLast.getLast hu1 = '/' := by
+                have hm : u.dropLast.getLast hu1 ∈ List.replicate (j + 1) '/' := by
+                  apply hpre.subset
+                  exact List.mem_append_left _ (List.getLast_mem hu1)
+                exact (List.mem_replicate.mp hm).2
+              apply hn (g ++ u.dropLast.dropLast)
+              rw [← hn', List.append_assoc, ← hlast, List.dropLast_concat_getLast hu1]
+      · simp at h
+
+theorem refsWF_iff {n : Path} {fs : List Path} (hn : NoTrailingSlash n) (hd : NoDbl n) (wf : FilesWF fs) :
+    anyOverlap [n] fs = true ↔ ∃ f ∈ fs, NoTrailingSlash f ∧ Related n f := by
+  rw [anyOverlap_single]
+  constructor
+  · rintro ⟨f, hf, hm⟩
+    rcases wf f hf with hc | ⟨g, hg, hgc, k, hk, rfl⟩
+    · refine ⟨f, hf, hc, ?_⟩
+      rcases hm with rfl | hm
+      · exact Or.inl rfl
+      · exact Or.inr ((overlapDir_iff n f hn hc).mp hm)
+    · exact ⟨g, hg, hgc, match_trailing hn hd hgc hk hm⟩
+  · rintro ⟨f, hf, hc, hr⟩
+    refine ⟨f, hf, ?_⟩
+    rcases hr with h | h
+    · exact Or.inl h
+    · exact Or.inr ((overlapDir_iff n f hn hc).mpr h)
+
 end Martian.Vdr
